@@ -1,0 +1,9 @@
+//go:build verif
+
+package ocsp
+
+//@ func OCSPRevocationChecker.IsRevoked
+//@   props C02
+//@   requires c != nil && clientCertificate != nil
+//@   assigns OCSPRevocationChecker.cache, X.cache2go, X.net
+//@   ensures err == nil ==> ret != nil
